@@ -62,6 +62,9 @@ type graphCase struct {
 	Req    string   `json:"req"`
 	Feat   []string `json:"feat"` // the specification's feature labels (ModuleSem!Features)
 	NsStat string   `json:"nsStatic"` // the entry's namespace restricted to the names known without running (no export * from CommonJS)
+	Modes  []string `json:"modes"`    // per module: "node" | "babel" (an ES module in a plain .js file that no package.json declares a module)
+	CycDyn []string `json:"cycdyn"`   // ModuleSem!CycDynReaders: members of an import cycle with a module whose export set is only known at run time
+	LateCp bool     `json:"lateCopy"` // ModuleSem!LateCopy
 
 	id     string
 	labels []string
@@ -81,15 +84,36 @@ type graphSpec struct {
 
 func realKind(k string) string {
 	switch k {
-	case "Lesm", "Ldyn":
+	case "Lesm", "Ldyn", "esmb":
 		return "esm"
-	case "Lcjs":
+	case "Lcjs", "Lmark", "Lmarkx":
 		return "cjs"
 	}
 	return k
 }
 
-func graphID(kinds []string, bodies [][]stmt) string {
+// interop modes of the modules of a GRAPH record (raw kinds)
+func modesOf(kinds []string) []string {
+	out := make([]string, len(kinds))
+	for i, k := range kinds {
+		out[i] = "node"
+		if k == "esmb" {
+			out[i] = "babel"
+		}
+	}
+	return out
+}
+
+func hasBabel(modes []string) bool {
+	for _, m := range modes {
+		if m == "babel" {
+			return true
+		}
+	}
+	return false
+}
+
+func graphID(kinds []string, modes []string, bodies [][]stmt) string {
 	real := make([]string, len(kinds))
 	for i, k := range kinds {
 		real[i] = realKind(k)
@@ -101,6 +125,9 @@ func graphID(kinds []string, bodies [][]stmt) string {
 		if bodies[i] == nil {
 			bodies[i] = []stmt{}
 		}
+	}
+	if hasBabel(modes) {
+		return core.Hash(map[string]interface{}{"k": real, "b": bodies, "m": modes})
 	}
 	return core.Hash(map[string]interface{}{"k": real, "b": bodies})
 }
@@ -139,12 +166,16 @@ func allCfgs() []buildCfg {
 //
 //	0: .mjs / .cjs           1: package.json type=module: .js / .cjs
 //	2: package.json type=commonjs: .mjs / .js
-func fileName(kind string, m int, scheme int) string {
+//
+// An ES module in "babel" mode is a plain .js file without a package.json
+// (scheme 0 only): esbuild does not apply Node's interop rule to it, Node 20
+// loads it as an ES module by syntax detection.
+func fileName(kind string, m int, scheme int, mode string) string {
 	ext := ""
 	switch kind {
 	case "esm":
 		ext = ".mjs"
-		if scheme == 1 {
+		if scheme == 1 || mode == "babel" {
 			ext = ".js"
 		}
 	case "cjs":
@@ -160,7 +191,13 @@ func fileName(kind string, m int, scheme int) string {
 
 func materialise(g *graphCase, scheme int) (map[string]string, string) {
 	files := map[string]string{}
-	name := func(m int) string { return fileName(g.Kinds[m-1], m, scheme) }
+	name := func(m int) string {
+		mode := ""
+		if m-1 < len(g.Modes) {
+			mode = g.Modes[m-1]
+		}
+		return fileName(g.Kinds[m-1], m, scheme, mode)
+	}
 	switch scheme {
 	case 1:
 		files["package.json"] = `{"type":"module"}` + "\n"
@@ -174,6 +211,11 @@ func materialise(g *graphCase, scheme int) (map[string]string, string) {
 		case "json":
 			fmt.Fprintf(&sb, `{"x":"m%d"}`+"\n", m)
 		case "esm":
+			if i < len(g.Modes) && g.Modes[i] == "babel" {
+				// a plain .js file is an ES module for Node (syntax detection) and for
+				// esbuild only if it has ES syntax: make that independent of the body
+				sb.WriteString("export {};\n")
+			}
 			for k, s := range g.Bodies[i] {
 				id := fmt.Sprintf("m%d.%d", m, k+1)
 				spec := ""
@@ -593,6 +635,10 @@ func compare(r *core.Run, p *prepared, res *nodeResult, st *stats) {
 	}
 	entryKind := g.Kinds[0]
 	ambStarCjs, cycDyn := false, false
+	cycReader := map[string]bool{}
+	for _, m := range g.CycDyn {
+		cycReader[m] = true
+	}
 	for _, f := range g.Feat {
 		if f == "amb:star>cjs" {
 			ambStarCjs = true
@@ -647,10 +693,16 @@ func compare(r *core.Run, p *prepared, res *nodeResult, st *stats) {
 				// source and the first disagreement is an object with additional keys in the bundle
 				key["star_cjs_ambiguity"] = true
 			}
-			if cycDyn && firstDiffExtraKeys(o.Trace, nat.Trace) {
-				// an ES module with a run-time export set is in an import cycle and the first
-				// disagreement is an object that lacks keys in the bundle (looked at too early)
+			if cycDyn && firstDiffExtraKeys(o.Trace, nat.Trace) && cycReader[firstDiffModule(nat.Trace, o.Trace)] {
+				// an ES module with a run-time export set is in an import cycle, the first
+				// disagreement is an object that lacks keys in the bundle and the module that
+				// looks is itself a member of such a cycle (it looked too early)
 				key["dyn_exports_in_cycle"] = true
+			}
+			if g.LateCp && (firstDiffExtraKeys(o.Trace, nat.Trace) || firstDiffUndefined(g, nat.Trace, o.Trace)) {
+				// an export-star cycle was cut at a module whose re-export source has a run-time
+				// export set and ran later (ModuleSem!LateCopy): the copied names are missing for good
+				key["late_star_copy"] = true
 			}
 			r.Violation(key, what, replay(what, o))
 			continue
@@ -687,6 +739,9 @@ func compare(r *core.Run, p *prepared, res *nodeResult, st *stats) {
 			key["kind"] = "exports"
 			if ambStarCjs && extraKeysOnly(want, got) {
 				key["star_cjs_ambiguity"] = true
+			}
+			if g.LateCp && extraKeysOnly(got, want) {
+				key["late_star_copy"] = true
 			}
 			if c.Format == "esm" && entryKind == "esm" && g.NsStat != "" && g.NsStat != g.Ns && got == g.NsStat {
 				// exactly the names that come through "export * from <CommonJS>" are missing
@@ -770,6 +825,39 @@ func firstDiffExtraKeys(nat, got [][2]string) bool {
 		}
 		if nat[i][1] != got[i][1] {
 			return extraKeysOnly(nat[i][1], got[i][1])
+		}
+	}
+	return false
+}
+
+// the module ("mN") whose statement logged the first event on which the traces differ in value
+func firstDiffModule(nat, got [][2]string) string {
+	for i := 0; i < len(nat) && i < len(got); i++ {
+		if nat[i][0] != got[i][0] {
+			return ""
+		}
+		if nat[i][1] != got[i][1] {
+			if j := strings.IndexByte(nat[i][0], '.'); j > 0 {
+				return nat[i][0][:j]
+			}
+			return ""
+		}
+	}
+	return ""
+}
+
+// the first disagreement is a named import (rd) that is a string natively and undefined in the bundle
+func firstDiffUndefined(g *graphCase, nat, got [][2]string) bool {
+	for i := 0; i < len(nat) && i < len(got); i++ {
+		if nat[i][0] != got[i][0] {
+			return false
+		}
+		if nat[i][1] != got[i][1] {
+			var m, k int
+			if n, _ := fmt.Sscanf(nat[i][0], "m%d.%d", &m, &k); n != 2 || m < 1 || m > len(g.Bodies) || k < 1 || k > len(g.Bodies[m-1]) {
+				return false
+			}
+			return g.Bodies[m-1][k-1].Op == "rd" && got[i][1] == "undefined" && !strings.HasPrefix(nat[i][1], "{")
 		}
 	}
 	return false
@@ -905,7 +993,7 @@ func generate(r *core.Run, gc genCfg, workers int) []*graphSpec {
 					r.Infra("undecodable GRAPH record: %v", err)
 					return
 				}
-				g.id = graphID(g.Kinds, g.Bodies)
+				g.id = graphID(g.Kinds, modesOf(g.Kinds), g.Bodies)
 				mu.Lock()
 				defer mu.Unlock()
 				if seen[g.id] {
@@ -983,7 +1071,7 @@ func runSpec(r *core.Run, sel []*graphSpec, shards, workers int) []*graphCase {
 						r.Infra("undecodable CASE record: %v", err)
 						return
 					}
-					g.id = graphID(g.Kinds, g.Bodies)
+					g.id = graphID(g.Kinds, g.Modes, g.Bodies)
 					src := byID[g.id]
 					if src == nil {
 						r.Infra("ModuleSem ran a graph that was not selected: %s", string(raw))
@@ -1073,7 +1161,11 @@ func selectGraphs(r *core.Run, gens []genCfg, results [][]*graphSpec, perLabel i
 		perm := rnd.Perm(len(gs))
 		n := 0
 		for _, k := range perm {
-			if n >= perLabel {
+			want := perLabel
+			if strings.HasPrefix(f, "starcyc:") || strings.HasPrefix(f, "mode:") {
+				want = 2 * perLabel // thin cells of the families added in round 2
+			}
+			if n >= want {
 				break
 			}
 			if !picked[gs[k].id] {
@@ -1127,6 +1219,18 @@ func requiredFeatures() []string {
 	}
 	// a module in a static cycle with a demand-loaded one; hoisted code that
 	// mentions a demand-loaded module
+	// export-star cycles read from outside through the member at which they are entered
+	for _, op := range []string{"rd", "rns", "star"} {
+		out = append(out, "starcyc:"+op+">leafelsewhere:cjs", "starcyc:"+op+">leafhere:cjs")
+	}
+	// one CommonJS module imported by importers of both interop modes, in both orders
+	for _, first := range []string{"babel", "node"} {
+		for _, op := range []string{"rd.default", "rns", "rd"} {
+			for _, c := range []string{"Lcjs", "Lmark", "Lmarkx"} {
+				out = append(out, "mode:"+first+"-first:"+op+">"+c)
+			}
+		}
+	}
 	for _, op := range []string{"imp", "rns", "star", "starns"} {
 		out = append(out, "cyc:"+op+">esm+lazy", "hoisted:"+op+">esm+lazy", "hoisted:"+op+">esmdyn+lazy", "hoisted:"+op+">esmdyn")
 	}
@@ -1151,9 +1255,13 @@ func Run(r *core.Run) {
 	gens := []genCfg{
 		// quick: five JVMs side by side, 2+2+1+1+1 workers, DataLoad's JVM has the eighth
 		{Config: "ModuleSem.gwrapE.cfg", Timeout: 900, Quota: r.Pick(260, 500), Workers: r.Pick(2, 0)},
-		{Config: "ModuleSem.qmixed.cfg", Timeout: 900, Quota: 300, Quick: true, Workers: 2},
-		{Config: "ModuleSem.qesm.cfg", Timeout: 900, Quota: 300, Quick: true, Workers: 1},
+		{Config: "ModuleSem.qmixed.cfg", Timeout: 900, Quota: 260, Quick: true, Workers: 2},
+		{Config: "ModuleSem.qesm.cfg", Timeout: 900, Quota: 260, Quick: true, Workers: 1},
 		{Config: "ModuleSem.gwrapC.cfg", Timeout: 900, Quota: r.Pick(140, 400), Workers: r.Pick(1, 0)},
+		// export-star cycles with a CommonJS/JSON/run-time leaf entered through every member; importers of both interop modes
+		{Config: "ModuleSem.gstarcyc.cfg", Timeout: 900, Quota: r.Pick(60, 300), Quick: true, Workers: 1},
+		{Config: "ModuleSem.gstarcyc3.cfg", Timeout: 1500, Quota: 500, Thorough: true},
+		{Config: "ModuleSem.gmode.cfg", Timeout: 900, Quota: r.Pick(40, 300), Workers: r.Pick(1, 0)},
 		{Config: "ModuleSem.simmixed.cfg", Simulate: fmt.Sprintf("num=%d", r.Pick(100, 1200)), Depth: 40, Timeout: 1500, Quota: r.Pick(120, 400)},
 		{Config: "ModuleSem.simesm.cfg", Simulate: "num=800", Depth: 40, Timeout: 1500, Thorough: true, Quota: 300},
 		{Config: "ModuleSem.gwrapT.cfg", Timeout: 1500, Thorough: true, Quota: 900},
@@ -1226,6 +1334,9 @@ func runGraphs(r *core.Run, all []*graphCase) {
 	for i, g := range all {
 		rnd := rand.New(rand.NewSource(r.Seed ^ int64(i)*2654435761))
 		p := &prepared{g: g, scheme: rnd.Intn(3), dir: filepath.Join(r.Scratch, "g", g.id)}
+		if hasBabel(g.Modes) {
+			p.scheme = 0 // a plain .js file is only outside Node's interop mode when no package.json declares a type
+		}
 		p.files, p.entry = materialise(g, p.scheme)
 		switch {
 		case r.Thorough() && i%12 == 0:
@@ -1302,7 +1413,7 @@ func replayOne(r *core.Run) {
 		r.Infra("replay file has no scenario")
 		return
 	}
-	g.id = graphID(g.Kinds, g.Bodies)
+	g.id = graphID(g.Kinds, g.Modes, g.Bodies)
 	g.labels = labelsOf(g)
 	g.src = "replay"
 	p := &prepared{g: g, scheme: rec.Detail.Scheme, dir: filepath.Join(r.Scratch, "g", g.id), cfgs: []buildCfg{rec.Detail.Config}}
